@@ -343,6 +343,23 @@ package interpreter
 //@ ensures [Block.complete] case *ast.BlockStmt: evN() < len(blk.Block) ==> evN() > 0 && !live(evN()-1) [C05,C06]
 //@ ensures [Block.empty] case *ast.BlockStmt: len(blk.Block) == 0 ==> evN() == 0 && result1.Type == 0 [C05]
 
+// while: events alternate condition (even) and body (odd), all in the current scope
+//@ ensures [While.events] case *ast.While: evN() >= 1 && entryIsPre(0) && forall(k, 0, evN(), (k % 2 == 0 ==> evalAt(k, wh.Condition, env, isRepl)) && (k % 2 == 1 ==> evalAt(k, wh.Body, env, isRepl))) && forall(k, 1, evN(), follows(k)) && stateIsPost(evN()-1) [C05,C14,C03]
+//@ ensures [While.continues] case *ast.While: forall(k, 0, evN()-1, (k % 2 == 0 ==> sigT(k) == 0 && truthySpec(evVal(k))) && (k % 2 == 1 ==> (sigT(k) == 0 || sigT(k) == 2) && !postFlag(k))) [C05]
+//@ ensures [While.condstop] case *ast.While: (evN()-1) % 2 == 0 ==> (sigT(evN()-1) != 0 ==> result1 == evSig(evN()-1)) && (live(evN()-1) ==> !truthySpec(evVal(evN()-1)) && result1.Type == 0) [C05,C04]
+//@ ensures [While.bodystop] case *ast.While: (evN()-1) % 2 == 1 ==> (sigT(evN()-1) == 1 ==> result1.Type == 0) && (sigT(evN()-1) == 3 ==> result1 == evSig(evN()-1)) && ((sigT(evN()-1) == 0 || sigT(evN()-1) == 2) ==> postFlag(evN()-1) && result1.Type == 0) [C05,C04,C06]
+
+// for: one fresh scope shared by header and body; events: [initializer] then (condition, body, [increment])*
+//@ let fb = ite(fr.Initializer != nil, 1, 0)
+//@ let fp = ite(fr.Increment != nil, 3, 2)
+//@ ensures [For.scope] case *ast.ForStmt: evN() > 0 ==> !old(envAllocated(now(evEnv(0)))) && envParent(evEnv(0)) == env && !old(mapAllocated(now(envTable(evEnv(0))))) && freshScopePre(0, old(curMD()), old(curMV()), old(curMC()), old(curEV()), old(curOut()), old(curErr()), old(curFlag()), envTable(evEnv(0))) [C03]
+//@ ensures [For.init] case *ast.ForStmt: fr.Initializer != nil ==> evN() >= 1 && evalAt(0, fr.Initializer, evEnv(0), isRepl) && (sigT(0) != 0 ==> evN() == 1 && result1 == evSig(0)) [C05,C04]
+//@ ensures [For.events] case *ast.ForStmt: evN() >= 1 && forall(k, fb, evN(), evEnv(k) == evEnv(0) && evRepl(k) == isRepl && evKind(k) == 1 && ((k-fb) % fp == 0 ==> evChild(k) == fr.Condition) && ((k-fb) % fp == 1 ==> evChild(k) == fr.Body) && ((k-fb) % fp == 2 ==> evChild(k) == fr.Increment)) && forall(k, 1, evN(), follows(k)) && stateIsPost(evN()-1) [C05,C14,C03]
+//@ ensures [For.continues] case *ast.ForStmt: forall(k, fb, evN()-1, ((k-fb) % fp == 0 ==> sigT(k) == 0 && truthySpec(evVal(k))) && ((k-fb) % fp == 1 ==> (sigT(k) == 0 || sigT(k) == 2) && !postFlag(k)) && ((k-fb) % fp == 2 ==> sigT(k) == 0)) [C05]
+//@ ensures [For.condstop] case *ast.ForStmt: evN() > fb && (evN()-1-fb) % fp == 0 ==> (sigT(evN()-1) != 0 ==> result1 == evSig(evN()-1)) && (live(evN()-1) ==> !truthySpec(evVal(evN()-1)) && result1.Type == 0) [C05,C04]
+//@ ensures [For.bodystop] case *ast.ForStmt: evN() > fb && (evN()-1-fb) % fp == 1 ==> (sigT(evN()-1) == 1 ==> result1.Type == 0) && (sigT(evN()-1) == 3 ==> result1 == evSig(evN()-1)) && ((sigT(evN()-1) == 0 || sigT(evN()-1) == 2) ==> postFlag(evN()-1) && result1.Type == 0) [C05,C04,C06]
+//@ ensures [For.incrstop] case *ast.ForStmt: evN() > fb && (evN()-1-fb) % fp == 2 ==> sigT(evN()-1) != 0 && result1 == evSig(evN()-1) [C05,C04]
+
 //@ loop 1:
 //@   invariant [flagmono] old(utils.HadRuntimeError) ==> utils.HadRuntimeError
 //@ loop 2:
@@ -362,9 +379,24 @@ package interpreter
 //@   invariant [now] iter > 0 ==> stateIsPost(iter-1)
 //@   invariant [start] iter == 0 ==> curMD() == store(old(curMD()), envTable(newEnv), emptyDom) && curMV() == old(curMV()) && curMC() == store(old(curMC()), envTable(newEnv), 0) && curEV() == old(curEV()) && stdoutN == old(stdoutN) && stderrN == old(stderrN) && utils.HadRuntimeError == old(utils.HadRuntimeError)
 //@ loop 6:
+//@   interpreted
 //@   invariant [flagmono] old(utils.HadRuntimeError) ==> utils.HadRuntimeError
+//@   invariant [parity] evN() % 2 == 0 && evN() >= 0
+//@   invariant [events] forall(k, 0, evN(), (k % 2 == 0 ==> evalAt(k, wh.Condition, env, isRepl) && sigT(k) == 0 && truthySpec(evVal(k))) && (k % 2 == 1 ==> evalAt(k, wh.Body, env, isRepl) && (sigT(k) == 0 || sigT(k) == 2) && !postFlag(k)))
+//@   invariant [chain] forall(k, 1, evN(), follows(k))
+//@   invariant [first] evN() > 0 ==> entryIsPre(0)
+//@   invariant [now] (evN() > 0 ==> stateIsPost(evN()-1)) && (evN() == 0 ==> unchanged())
 //@ loop 7:
+//@   interpreted
 //@   invariant [flagmono] old(utils.HadRuntimeError) ==> utils.HadRuntimeError
+//@   invariant [phase] evN() >= fb && (evN()-fb) % fp == 0
+//@   invariant [scope] newEnvironement != nil && !old(envAllocated(now(newEnvironement))) && envParent(newEnvironement) == env && !old(mapAllocated(now(envTable(newEnvironement))))
+//@   invariant [init] fr.Initializer != nil ==> evalAt(0, fr.Initializer, newEnvironement, isRepl) && sigT(0) == 0
+//@   invariant [events] forall(k, fb, evN(), evEnv(k) == newEnvironement && evRepl(k) == isRepl && evKind(k) == 1 && ((k-fb) % fp == 0 ==> evChild(k) == fr.Condition && sigT(k) == 0 && truthySpec(evVal(k))) && ((k-fb) % fp == 1 ==> evChild(k) == fr.Body && (sigT(k) == 0 || sigT(k) == 2) && !postFlag(k)) && ((k-fb) % fp == 2 ==> evChild(k) == fr.Increment && sigT(k) == 0))
+//@   invariant [chain] forall(k, 1, evN(), follows(k))
+//@   invariant [first] evN() > 0 ==> freshScopePre(0, old(curMD()), old(curMV()), old(curMC()), old(curEV()), old(curOut()), old(curErr()), old(curFlag()), envTable(newEnvironement))
+//@   invariant [now] evN() > 0 ==> stateIsPost(evN()-1)
+//@   invariant [start] evN() == 0 ==> curMD() == store(old(curMD()), envTable(newEnvironement), emptyDom) && curMV() == old(curMV()) && curMC() == store(old(curMC()), envTable(newEnvironement), 0) && curEV() == old(curEV()) && stdoutN == old(stdoutN) && stderrN == old(stderrN) && utils.HadRuntimeError == old(utils.HadRuntimeError)
 
 //@ func (f *Function) Call [C04,C07]
 //@ requires [recv] f != nil
